@@ -22,6 +22,9 @@ def fold(n):
             return None
     if k in ("Paren", "Cast"):
         return fold(n["e"])
+    if k == "Path" and len(n["path"]) >= 2 and n["path"][-1] == "MAX" and n["path"][-2] in TYPE_BITS:
+        b = TYPE_BITS[n["path"][-2]]
+        return 2 ** (b - 1) - 1 if n["path"][-2].startswith("i") else 2 ** b - 1
     if k == "Binary":
         a, b = fold(n["l"]), fold(n["r"])
         if a is None or b is None:
@@ -38,6 +41,33 @@ def fold(n):
         except (ZeroDivisionError, ValueError):
             return None
     return None
+
+
+TYPE_BITS = {"u8": 8, "i8": 8, "u16": 16, "i16": 16, "u32": 32, "i32": 32}
+
+
+def types_of(ast):
+    """narrow integer types that occur anywhere in the non-test code (casts, locals, fields, parameters, paths like u16::MAX)"""
+    import re as _re
+    found = set()
+
+    def walk(n):
+        if isinstance(n, dict):
+            for k, v in n.items():
+                if k in ("ty", "ret", "text", "generics") and isinstance(v, str):
+                    found.update(_re.findall(r"\b([ui](?:8|16|32))\b", v))
+                elif k == "path" and isinstance(v, list):
+                    found.update(x for x in v if x in TYPE_BITS)
+                elif k == "suffix" and v in TYPE_BITS:
+                    found.add(v)
+                else:
+                    walk(v)
+        elif isinstance(n, list):
+            for x in n:
+                walk(x)
+    for f in ast:
+        walk(f["items"])
+    return sorted(found)
 
 
 def collect(ast):
@@ -66,16 +96,30 @@ def collect(ast):
     return sorted(out)
 
 
+def _baseline():
+    b = json.load(open(BASELINE)) if os.path.exists(BASELINE) else {"ints": [], "types": []}
+    if isinstance(b, list):
+        b = {"ints": b, "types": ["u8"]}
+    return b
+
+
 def current():
+    """integer literals (constant-folded) of the working tree, plus 2^bits for every narrow integer type the pinned tree does not use
+    (a counter or a cast of that type wraps / truncates there)"""
     p = os.path.join(build.BUILD, "tmp", "ast.json")
     if not os.path.exists(p):
         return []
-    return collect(json.load(open(p)))
+    ast = json.load(open(p))
+    out = set(collect(ast))
+    for t in types_of(ast):
+        if t not in _baseline()["types"]:
+            out.add(2 ** TYPE_BITS[t])
+    return sorted(out)
 
 
 def novel():
     """literals of the working tree that the pinned tree does not contain, with their neighbours"""
-    base = set(json.load(open(BASELINE))) if os.path.exists(BASELINE) else set()
+    base = set(_baseline()["ints"])
     nv = sorted((v for v in current() if v not in base), key=lambda v: (v < 256, v))   # sizes and thresholds before byte values
     out = []
     for v in nv:
@@ -86,7 +130,7 @@ def novel():
 
 
 def exact():
-    base = set(json.load(open(BASELINE))) if os.path.exists(BASELINE) else set()
+    base = set(_baseline()["ints"])
     return sorted((v for v in current() if v not in base), key=lambda v: (v < 256, v))[:8]
 
 
